@@ -1075,39 +1075,52 @@ def run_check(pid, gen, focus, oracle, tier, seed, replay, checker_cmd, rule, as
     for e in errors:
         out.add_broken(f"harness:{pid}-worker", e)
 
-    # ---- correspondence with the model (evaluated inside Coq)
-    n_turns = 0
-    _t0 = _time.time()
-    disagreements = {"v1": [], "v1s": [], "v2": []}
-    if okm:
-        def family(c):
-            return "v1s" if (c["ver"] == "v1" and c.get("api") == "state") else c["ver"]
+    # ---- correspondence with the model (evaluated inside Coq).  Gen/C01Flows.v is shared by every
+    # run of C01/C02 (possibly with another VERIF_REPO): regenerate it, rebuild the executable model
+    # and evaluate the cases while holding the build lock, so that the .vo files stay consistent
+    _lock = C.BuildLock()
+    _lock.__enter__()
+    try:
+        if okm:
+            C.regen(gen)
+            okm, logm = C.coq_make(["theories/Pipe/PipeRun.vo"])
+            if not okm:
+                out.add_broken("coq:theories/Pipe/PipeRun.v", logm)
+        n_turns = 0
+        _t0 = _time.time()
+        disagreements = {"v1": [], "v1s": [], "v2": []}
+        if okm:
+            def family(c):
+                return "v1s" if (c["ver"] == "v1" and c.get("api") == "state") else c["ver"]
 
-        for ver, fn in (("v1", "check_v1"), ("v1s", "check_v1_state"), ("v2", "check_v2")):
-            idx = [i for i, c in enumerate(cases) if family(c) == ver and results[i] is not None]
-            terms = [case_term(cases[i], results[i]) for i in idx]
-            n_turns += sum(len(results[i]) for i in idx)
-            if not terms:
-                continue
-            bools, err = C.run_cases(f"{pid}_{ver}", PREAMBLE, terms, fn)
-            if err:
-                out.add_broken(f"correspondence:{pid}-{ver}(coqc)", err)
-                continue
-            disagreements[ver] = [i for i, okb in zip(idx, bools) if not okb]
-    for ver, bad in disagreements.items():
-        if bad:
-            i = min(bad, key=lambda j: conv_size(cases[j]))
-            if ver == "v1s":
-                call = f"conv_v1_state {coq_turns(cases[i])} {coq_cfg(cases[i])} init_state 0 {coq_turns(cases[i])}"
-            else:
-                fnm = "conv_v1_c" if ver == "v1" else "conv_v2_c current_fixd_run"
-                call = f"{fnm} {coq_turns(cases[i])} {coq_cfg(cases[i])}"
-            model = C.eval_term(f"{pid}_{ver}", PREAMBLE,
-                                f"map (fun r => (trace_obs (snd (fst r)), snd r)) ({call})")
-            out.add_broken(f"correspondence:{pid}-{ver}",
-                           f"{len(bad)} conversations disagree with the model; smallest: case={json.dumps(cases[i])} "
-                           f"observed={json.dumps(results[i])} model={model[-1500:]}")
+            for ver, fn in (("v1", "check_v1"), ("v1s", "check_v1_state"), ("v2", "check_v2")):
+                idx = [i for i, c in enumerate(cases) if family(c) == ver and results[i] is not None]
+                terms = [case_term(cases[i], results[i]) for i in idx]
+                n_turns += sum(len(results[i]) for i in idx)
+                if not terms:
+                    continue
+                bools, err = C.run_cases(f"{pid}_{ver}", PREAMBLE, terms, fn)
+                if err:
+                    out.add_broken(f"correspondence:{pid}-{ver}(coqc)", err)
+                    continue
+                disagreements[ver] = [i for i, okb in zip(idx, bools) if not okb]
+        for ver, bad in disagreements.items():
+            if bad:
+                i = min(bad, key=lambda j: conv_size(cases[j]))
+                if ver == "v1s":
+                    call = f"conv_v1_state {coq_turns(cases[i])} {coq_cfg(cases[i])} init_state 0 {coq_turns(cases[i])}"
+                else:
+                    fnm = "conv_v1_c" if ver == "v1" else "conv_v2_c current_fixd_run"
+                    call = f"{fnm} {coq_turns(cases[i])} {coq_cfg(cases[i])}"
+                model = C.eval_term(f"{pid}_{ver}", PREAMBLE,
+                                    f"map (fun r => (trace_obs (snd (fst r)), snd r)) ({call})")
+                out.add_broken(f"correspondence:{pid}-{ver}",
+                               f"{len(bad)} conversations disagree with the model; smallest: case={json.dumps(cases[i])} "
+                               f"observed={json.dumps(results[i])} model={model[-1500:]}")
 
+
+    finally:
+        _lock.__exit__(None, None, None)
     t_model = round(_time.time() - _t0, 1)
     # ---- direct property oracle on the IMPLEMENTATION's observations
     viol = []
